@@ -1,4 +1,4 @@
-#!/bin/sh
+#!/bin/bash
 # tools/seed_all_par.sh [jobs] -- re-evaluates both waves of seeded changes, several properties at a time
 # (each property has its own scratch worktree, so different properties do not interfere)
 cd /verif
@@ -6,6 +6,7 @@ J=${1:-4}
 one() {
   P=$1
   for M in m1 m2; do
+    [ -n "$ONLY_W3" ] && continue
     [ -f /tmp/wt/$P/out/$M/patch.diff ] || continue
     extra=$(python3 -c "
 import json,sys
@@ -15,6 +16,11 @@ except Exception: pass")
     tools/seed_eval.sh $P $M $P $extra 2>&1 | cut -c1-330
   done
   for M in m1 m2 m3; do
+    [ -f /tmp/wt3/$P/out/$M/patch.diff ] || continue
+    WT_BASE=/tmp/wt3 MUT_PREFIX=w3 tools/seed_eval.sh $P $M $P $(cat /tmp/wt3/$P/out/$M/extra 2>/dev/null) 2>&1 | cut -c1-330
+  done
+  [ -n "$ONLY_W3" ] && return
+  for M in m1 m2 m3; do
     [ -f /tmp/wt2/$P/out/$M/patch.diff ] || continue
     extra=""
     case $P-$M in C11-m2) extra="C13";; C11-m3) extra="C19";; C09-m1|C08-m2) extra="C10";; C06-m2) extra="C08";; C19-m1) extra="C03";; C05-m3) extra="C16";; C20-m3) extra="C16 C02";; C04-m1) extra="C07";; esac
@@ -23,7 +29,7 @@ except Exception: pass")
 }
 for P in C01 C02 C03 C04 C05 C06 C07 C08 C09 C10 C11 C12 C13 C14 C15 C16 C17 C18 C19 C20; do
   ( one $P > /tmp/seedpar_$P.log 2>&1 ) &
-  while [ "$(jobs -p | wc -l)" -ge "$J" ]; do sleep 5; done
+  while [ "$(jobs -rp | wc -l)" -ge "$J" ]; do sleep 5; done
 done
 wait
 cat /tmp/seedpar_C*.log
